@@ -91,6 +91,8 @@ class Roots:
 
     def root_of(self, fi, expr):
         """root name denoted by expr inside fi, or None."""
+        if expr is None:
+            return None
         c = fi.canon(expr)
         if c.startswith('self.') and c.count('.') == 1 and fi.cls is not None:
             attr = c.split('.')[1]
